@@ -475,7 +475,7 @@ def deep_operand_atoms(an, fd, ins, op, control=False):
     return deep_atoms(an, fd, seeds, control=control)
 
 
-def direct_chain(fd, op, follow=None, limit=14):
+def direct_chain(fd, op, follow=None, limit=14, want_root=False):
     """callee names along the *direct* provenance of an operand (flow-sensitive in effect: only single-definition
     locals, references, dereferences and copies are followed; at a call the receiver is followed unless `follow`
     names another argument index for that callee)"""
@@ -488,6 +488,9 @@ def direct_chain(fd, op, follow=None, limit=14):
         n += 1
         l = cur.place.local
         ds = [d for d in fd.defs.get(l, ()) if d.kind != "param"]
+        if len(ds) != 1:
+            # an iterator that is advanced through `&mut` keeps its origin: ignore mutations through references
+            ds = [d for d in ds if d.kind != "call-mut"]
         if len(ds) != 1:
             break
         i = ds[0].instr
@@ -504,4 +507,6 @@ def direct_chain(fd, op, follow=None, limit=14):
             cur = Operand({"k": "copy", "pl": {"l": p.local, "p": []}})
         else:
             break
+    if want_root:
+        return out, (cur.place.local if cur is not None and cur.place is not None else None)
     return out
